@@ -1009,6 +1009,28 @@ def _chain(ip, a, k):
     return I.GenV(out)
 
 
+@external("itertools.product")
+def _product(ip, a, k):
+    import itertools
+
+    return I.GenV([tuple(t) for t in itertools.product(*[ip.iterate(x) for x in a])])
+
+
+@external("itertools.combinations")
+def _combinations(ip, a, k):
+    import itertools
+
+    return I.GenV([tuple(t) for t in itertools.combinations(ip.iterate(a[0]), a[1])])
+
+
+@external("itertools.chain.from_iterable")
+def _chain_from_iterable(ip, a, k):
+    out = []
+    for x in ip.iterate(a[0]):
+        out.extend(ip.iterate(x))
+    return I.GenV(out)
+
+
 @external("fontTools.misc.roundTools.otRound")
 def _otround(ip, a, k):
     return ops.floor(ops.add(a[0], Fraction(1, 2)))
